@@ -186,7 +186,18 @@ func (d *deriver) file(f *ast.File, pkgName string) {
 			}
 		}
 	}
-	astutil.AddImport(d.fset, f, "verif/refco")
+	used := false
+	ast.Inspect(f, func(n ast.Node) bool {
+		if se, ok := n.(*ast.SelectorExpr); ok {
+			if id, ok := se.X.(*ast.Ident); ok && id.Name == "refco" {
+				used = true
+			}
+		}
+		return !used
+	})
+	if used {
+		astutil.AddImport(d.fset, f, "verif/refco")
+	}
 }
 
 // generator rewrites one generator function in place and continues the traversal inside it.
